@@ -25,7 +25,7 @@ m = {
            "baseline_off_cmd": BASE, "source_commits": [], "add_only": True},
  "engines": [{"name": "pbt-harness", "path": "pbt/harness.py", "serves_properties": sorted(CHECKS),
               "kind_free_text": "Hypothesis-driven sharded generation (collect -> bucket -> shrink), exhaustive enumeration of small finite sub-spaces, replay of committed regression inputs"},
-             {"name": "pbt-fuzz", "path": "pbt/fuzz.py", "serves_properties": ["C15", "C18"],
+             {"name": "pbt-fuzz", "path": "pbt/fuzz.py", "serves_properties": ["C06", "C13", "C15", "C16", "C18", "C20"],
               "kind_free_text": "coverage-guided fuzzing (atheris/libFuzzer) of the same Hypothesis strategy and check_case via fuzz_one_input; thorough tier only, 16 processes"}],
  "checks": [],
  "not_applicable": [{"property_id": p, "reason": NA.get(p, "check not built yet (work in progress); see DESIGN.md for the planned property-based check")} for p in allp if p not in CHECKS],
